@@ -291,6 +291,15 @@ namespace c17
             res.info["input"] = "planner found no exact path";
             return res;
         }
+        if (plan.geti("degenerate", 0) >= 2)
+        {
+            // synthetic variation: a valid path of total length 0 (the start state, n times)
+            auto dp = std::make_shared<og::PathGeometric>(c.w->si);
+            for (long i = 0; i < plan.geti("degenerate", 0); i++)
+                dp->append(path->getState(0));
+            path = dp;
+            res.probes["zero-length-input-path"]++;
+        }
         if (plan.getb("repeat_states") && path->getStateCount() >= 2)
         {
             // synthetic variation: repeated states / zero-length segments
@@ -419,7 +428,7 @@ namespace c17
                     {
                         unsigned want = (unsigned)(nb + (size_t)op.geti("extra"));
                         path->interpolate(want);
-                        if (path->getStateCount() != want && before.length() > 0)
+                        if (path->getStateCount() != want)
                             res.violate(P + ".interpolate-count-wrong", when + fmt(": interpolate(%u) produced %zu states", want, path->getStateCount()));
                     }
                     else if (k == "interpolate")
